@@ -201,7 +201,7 @@ func (c *Cluster) Transfer() (from, to string, err error) {
 
 // Quiesce waits until every live node has applied what the leader applied.
 func (c *Cluster) Quiesce(d time.Duration) (map[string]*xp.State, error) {
-	deadline := time.Now().Add(d)
+	deadline := time.Now().Add(Stretch(d))
 	want := uint64(c.Acked.Len())
 	for {
 		states := map[string]*xp.State{}
